@@ -3,6 +3,8 @@
 // Contracts for the verifier in /verif (comment-only; adds no code).
 package utils
 
+//@ safetyprop C12
+
 //@ func MinBigInt
 //@   requires [args-nonnil] a != nil && b != nil
 //@   ensures  [fresh]  {C04} result != nil && fresh(ref(result))
